@@ -250,14 +250,22 @@ func harnesses(r *fw.Run) []fw.HarnessSpec {
 				c.Fail("setup", "%v", err)
 				return
 			}
-			k := key(p.seed)
-			pub := k.Public().(ed25519.PublicKey)
+			pub := key(p.seed).Public().(ed25519.PublicKey)
+			k := append(ed25519.PrivateKey{}, key(p.seed)...) // the caller's own buffer
 			w, err := wallet.New(k, p.ver, nil, p.opts()...)
 			if err != nil {
 				c.Fail("wallet.New:"+p.ver.ToString(), "%v", err)
 				return
 			}
 			got := w.GetAddress()
+			// the wallet's identity is fixed when it is made: the caller wiping or reusing its key buffer afterwards
+			// changes neither the address nor the initial state derived below
+			for i := range k {
+				k[i] ^= 0xA5
+			}
+			if again := w.GetAddress(); again != got {
+				c.Fail("address-follows-key-buffer:"+p.ver.ToString(), "GetAddress() changed from %s to %s when the caller's key buffer was overwritten", got.ToRaw(), again.ToRaw())
+			}
 			if got.Workchain != int32(p.wc) || got.Address != want {
 				c.Fail("address:"+p.ver.ToString(), "New().GetAddress() = %s, reference state-init hash %d:%x", got.ToRaw(), p.wc, want)
 			}
